@@ -63,7 +63,7 @@ func c11Run(c *fw.Ctx) {
 	const V = 60 * time.Second
 	envs := &envCache{}
 	defer envs.close()
-	dirAnswers := []string{"in-listed-group", "in-no-group", "directory-error", "in-group-named-with-listed-name-as-prefix", "in-group-whose-name-is-a-prefix-of-listed", "directory-unavailable-503", "directory-rate-limited-429"}
+	dirAnswers := []string{"in-listed-group", "in-no-group", "directory-error", "in-group-named-with-listed-name-as-prefix", "in-group-whose-name-is-a-prefix-of-listed", "directory-unavailable-503", "directory-rate-limited-429", "in-group-whose-name-differs-only-in-case"}
 
 	varAddr, varDom, varGrp, emails := c11Variants, c11Variants, c11Variants, c11Emails
 	if c.Thorough() {
@@ -105,6 +105,8 @@ func c11Run(c *fw.Ctx) {
 				return ans(200, `{"email":"x","groups":["eng-contractors","engineering"]}`)
 			case "in-group-whose-name-is-a-prefix-of-listed":
 				return ans(200, `{"email":"x","groups":["en","e"]}`)
+			case "in-group-whose-name-differs-only-in-case":
+				return ans(200, `{"email":"x","groups":["ENG","Eng"]}`)
 			}
 			if dir == "directory-unavailable-503" {
 				return ans(503, "unavailable")
@@ -295,7 +297,7 @@ func init() {
 	fw.Register(&fw.Check{
 		ID:    "C11",
 		Level: "exploration",
-		Rule: "full product on a proxy built like cmd/sso-proxy (validators exactly as proxy.New builds them): rule sets = every combination of {absent, listed value, lone *, * with another value} for addresses, domains and groups (63 policies) x 18 emails (the listed domain with its dot replaced, exact, case-varied, prefix/suffix look-alikes, plus-tagged and dotted variants of a listed address, look-alike domain, sub-domain, domain as prefix, unlisted, two @, empty local part, non-ASCII local part / domain) x directory {in listed group, in none, error 500, unavailable 503, rate-limited 429, only in groups whose names extend a listed name, only in groups whose names are prefixes of a listed name}; " +
+		Rule: "full product on a proxy built like cmd/sso-proxy (validators exactly as proxy.New builds them): rule sets = every combination of {absent, listed value, lone *, * with another value} for addresses, domains and groups (63 policies) x 18 emails (the listed domain with its dot replaced, exact, case-varied, prefix/suffix look-alikes, plus-tagged and dotted variants of a listed address, look-alike domain, sub-domain, domain as prefix, unlisted, two @, empty local part, non-ASCII local part / domain) x directory {in listed group, in none, error 500, unavailable 503, rate-limited 429, only in groups whose names extend a listed name, only in groups whose names are prefixes of a listed name, only in groups whose names differ from the listed one in letter case}; " +
 			"thorough adds rule variants {listed value in upper case, another value + the listed one} and emails {empty, leading/trailing space, case-varied sub-domain, the bare listed domain, a listed address used as local part}; " +
 			"each case logs in through the real callback, sends a request while no check is due, one after the validity TTL and one after the access token ran out and was refreshed (the scripted authenticator honours only the latest token it issued); oracle = the documented any-of semantics and the same verdict at all three stages (emails whose reading the statement leaves open: consistency only); " +
 			"distinct_nontrivial = distinct (rule set, email class, directory, verdict triple) among cases admitted at login",
